@@ -158,7 +158,12 @@ ExitViol(st, e) ==
   \cup (IF ok /\ ~st.commitAcked THEN {V("C04", "SuccessWithoutAcknowledgedCommit", "", e)} ELSE {})
   \cup (IF ok /\ ~(st.closeDbAcked /\ st.closeSessAcked) THEN {V("C04", "SuccessWithoutAcknowledgedClose", "", e)} ELSE {})
   \cup (IF ok /\ st.faulted THEN {V("C04", "FailedStepButRunReportedSuccess", "", e)} ELSE {})
+  (* two statements that qualify share one name: there is no telling which expression the name stands for - the run  *)
+  (* must not go on as if there were (the agent refuses such a configuration)                                        *)
+  \cup (IF ok /\ Has(st.expect, "ambiguous") /\ st.expect.ambiguous
+        THEN {V("C16", "RunSucceededAlthoughTwoManagedStatementsShareAName", "", e)} ELSE {})
   \cup (IF ~ok /\ ~st.faulted /\ st.irrmode = "ok" /\ ~e.timed_out /\ ~(Has(st.expect, "foreign") /\ st.expect.foreign)
+           /\ ~(Has(st.expect, "ambiguous") /\ st.expect.ambiguous)
         THEN {V(st.expect.prop, "RunFailedWithoutAnyFault",
                 IF e.panicked THEN "a task panicked" ELSE IF st.repeat THEN "repeat run (read-back of the installed state)"
                 ELSE IF st.style # "" THEN "replies re-serialised: " \o st.style ELSE "exit " \o ToString(e.code), e)}
